@@ -25,7 +25,7 @@ ASSUMPTIONS = [
 BUDGET = {"quick": (4, 400), "thorough": (16, 3000)}
 KNOWN_KINDS = {}
 STRATA = ["transfer", "distribute", "direct", "mixed"]
-REQUIRED_CLASSES = ["op:transfer", "op:distribute", "op:aspirate", "op:dispense", "both-raised", "trough-position-differs", "base-refused", "split", "chained-transfer"]
+REQUIRED_CLASSES = ["op:transfer", "op:distribute", "op:aspirate", "op:dispense", "both-raised", "trough-position-differs", "base-refused", "split", "chained-transfer", "lvh-mix-transfer", "one-to-one-volume-list"]
 
 
 @st.composite
@@ -43,7 +43,7 @@ def _case(draw, focus):
         labs.append(draw(lab_spec(names[i], kind=kind, max_rows=6, max_cols=6 if kind == "plate" else 4, regime=draw(st.sampled_from(["roomy", "tight"])), grid=True, pos=(10 + i, 1 + i), filled=True if i == 0 else None)))
     vs = st.one_of(vs_ok(0.01), vs_ok(0.01), vs_mixed(0.01))
     # "route": force trough -> plate (the case in which the automatic partitioning differs from "source") or plate -> trough
-    t = st.tuples(op_transfer(vs, max_n=5), st.sampled_from([None, "t2p", "t2p", "p2t", "chain", "chain"]), st.sampled_from(["auto", "auto", None])).map(
+    t = st.tuples(op_transfer(vs, max_n=5), st.sampled_from([None, "t2p", "t2p", "p2t", "chain", "chain", "lvhmix", "lvhmix", "one2one"]), st.sampled_from(["auto", "auto", None])).map(
         lambda x: dict(x[0], route=x[1], pb=x[2] or x[0]["pb"])
     )
     d = op_distribute(vs, max_n=5)
@@ -131,6 +131,24 @@ def check_case(case) -> Obs:
                     op["dw"] = {"t": "list", "w": [[r_ + 1, c_] for r_ in range(k_)]}
                     op["vols"] = {"t": "scalar", "v": {"f": 0.4}}
                     obs.cls("chained-transfer")
+            elif op.get("route") == "lvhmix" and plates:
+                # several column groups of which only the earlier ones need large-volume splitting
+                i_ = plates[op["src"] % len(plates)]
+                j_ = plates[op["dst"] % len(plates)]
+                nc = min(specs[i_]["cols"], specs[j_]["cols"], 3)
+                if nc >= 2:
+                    op["src"], op["dst"] = i_, j_
+                    op["sw"] = {"t": "list", "w": [[0, c_] for c_ in range(nc)]}
+                    op["dw"] = {"t": "list", "w": [[0, c_] for c_ in range(nc)]}
+                    op["vols"] = {"t": "list", "v": [round(2.5 * M, 2)] + [round(0.5 * M, 2)] * (nc - 1)}
+                    op["cap"] = 3 * M
+                    obs.cls("lvh-mix-transfer")
+            elif op.get("route") == "one2one":
+                # one source well, one destination well, a list of volumes
+                op["sw"] = {"t": "scalar", "w": op["sw"]["w"] if op["sw"]["t"] == "scalar" else [0, 0]}
+                op["dw"] = {"t": "scalar", "w": op["dw"]["w"] if op["dw"]["t"] == "scalar" else [1, 0]}
+                op["vols"] = {"t": "list", "v": [{"f": 0.1}, {"f": 0.05}, 1.0]}
+                obs.cls("one-to-one-volume-list")
             elif op.get("route") and troughs and plates:
                 a, b = troughs[0], plates[0]
                 op["src"], op["dst"] = (a, b) if op["route"] == "t2p" else (b, a)
